@@ -205,6 +205,11 @@ theorem C09_all_writers_framed : ∀ w ∈ Mcp.Gen.writers, Mcp.Gen.Writer.frame
 /-- The table covers exactly the writer functions we know about (a new writer cannot appear un-modelled). -/
 theorem C09_writers_complete : Mcp.Gen.writers.map (·.fn) = Mcp.Gen.expectedWriters := by decide
 
+/-- Every function that writes an event on a GET stream's connection is one of the two table entries that hold the
+    connection's write lock (a new, un-modelled writer on that stream breaks this). -/
+theorem C09_get_stream_writers_known :
+    Mcp.Gen.getStreamWriteSites = ["httpServerHandler.SendRequest", "httpServerHandler.sendNotificationToGetSSE"] := by decide
+
 -- non-vacuity: a legal locked schedule with two threads and multi-chunk frames
 example : ∃ s, run true {} [.start 0 [t!"ab", t!"c\n"], .write 0, .write 0, .finish 0,
                             .start 1 [t!"x\n"], .write 1, .finish 1] = some s ∧
